@@ -2,6 +2,7 @@ package an
 
 import (
 	"fmt"
+	"strings"
 
 	"golang.org/x/tools/go/ssa"
 )
@@ -70,5 +71,106 @@ func runC12(p *Prog, r *Report) {
 
 	r.Describe("C12.2/E4", "no blocking operation (channel, select, sleep, network I/O, application callback; direct or through callees) runs while a mutex is held, outside the frozen allow-list")
 	e4UnderLock(p, r, "C12.2/E4", c12Allow)
+	c12Endpoints(p, r)
 	_ = fmt.Sprint
+}
+
+// c12Endpoints: C12.3 / C12.4 — failed operations leave endpoints usable.
+func c12Endpoints(p *Prog, r *Report) {
+	q := NewQ(p, r)
+	R := "C12.3/endpoint-usable"
+	r.Describe(R, "a failed Listen/Dial resets the endpoint's active flag so a corrected retry works; the accept loop survives per-connection failures; closed pipes notify their dialer; refused pipes are closed")
+	// Listen / Dial sibling rule: on the error edge of the transport call, active = false
+	ls := q.Fn(R, "internal/core", "listener", "Listen")
+	if ls.OK() {
+		st := ls.Ev("store", "recv.active").Arg(0, "false")
+		q.Req(R, "listener.Listen-resets-active", len(st) == 1 && st.AllGuarded("recv.l.Listen() != nil") && st.AllHeld("internal/core.listener.Mutex"), st.Pos(p),
+			"active=false on the transport Listen error edge, under the lock", "a failed Listen leaves active=true: a retry returns ErrAddrInUse for ever")
+		g := ls.Ev("go", "core.(*listener).serve")
+		q.Req(R, "serve-only-after-success", len(g) == 1 && g.AllGuarded("recv.l.Listen() == nil"), g.Pos(p), "accept loop spawned only when Listen succeeded", "the accept loop is spawned although Listen failed")
+	}
+	dd := q.Fn(R, "internal/core", "dialer", "Dial")
+	if dd.OK() {
+		st := dd.Ev("store", "recv.active").Arg(0, "false")
+		ok := len(st) == 1 && st.AllHeld("internal/core.dialer.Mutex")
+		if ok {
+			ok = false
+			for _, g := range st[0].Guard {
+				if strings.Contains(g, "core.(*dialer).dial(") && strings.HasSuffix(g, "!= nil") {
+					ok = true
+				}
+			}
+		}
+		q.Req(R, "dialer.Dial-resets-active", ok, dd.Pos(),
+			"active=false when the synchronous first attempt fails, under the lock", "a failed synchronous Dial leaves active=true (sibling listener.Listen resets it): a corrected retry returns ErrAddrInUse for ever")
+	}
+	// the accept loop
+	sv := q.Fn(R, "internal/core", "listener", "serve")
+	if sv.OK() {
+		okRet := true
+		var why []string
+		for _, e := range sv.Ev("return", "") {
+			if !(hasAtom(e.Guard, "recv.closed") || hasAtom(e.Guard, "recv.l.Accept()#1 == ErrClosed")) {
+				okRet = false
+				why = append(why, p.InstrPos(e.In)+" guards "+strings.Join(e.Guard, ";"))
+			}
+		}
+		q.Req(R, "serve-exits-only-when-closed", okRet, sv.Pos(), "serve returns only when closed or the transport says ErrClosed", "serve can exit for another reason (a per-connection failure stops the listener): "+strings.Join(why, " | "))
+		ap := sv.Ev("call", "core.(*socket).addPipe")
+		sl := sv.Ev("call", "time.Sleep")
+		reach := blockReach(sv.fn)
+		back := func(s Sel) bool {
+			for _, e := range s {
+				h := innermostLoopHead(e.In.Block(), reach)
+				if h == nil {
+					return false
+				}
+			}
+			return len(s) > 0
+		}
+		q.Req(R, "serve-continues-after-addPipe", back(ap), ap.Pos(p), "addPipe is inside the accept loop", "addPipe not inside the loop")
+		q.Req(R, "serve-debounces-errors", back(sl) && sl.AllGuarded("recv.l.Accept()#1 != nil") && sl.AllGuarded("recv.l.Accept()#1 != ErrClosed"), sl.Pos(p), "other accept errors sleep and retry", "accept errors no longer sleep-and-retry inside the loop")
+	}
+	dialerToldOfEveryClose(p, r, R)
+
+	R = "C12.4/transport-listen-retry"
+	r.Describe(R, "a failed transport Listen returns before the accept goroutine is spawned and without closing its close channel")
+	for _, t := range []string{"transport/tcp", "transport/tlstcp", "transport/ipc", "transport/ws"} {
+		f := q.Fn(R, t, "listener", "Listen")
+		if !f.OK() {
+			continue
+		}
+		reach := blockReach(f.fn)
+		gos := f.Ev("go", "")
+		closes := f.Ev("close", "close")
+		bad := ""
+		nerr := 0
+		for _, e := range f.Ev("return", "") {
+			if len(e.Args) != 1 || e.Args[0] == "nil" {
+				continue
+			}
+			// a return of the (nil) error variable on the success path is guarded == nil
+			isErrPath := true
+			for _, g := range e.Guard {
+				if strings.HasSuffix(g, e.Args[0]+" == nil") {
+					isErrPath = false
+				}
+			}
+			if !isErrPath {
+				continue
+			}
+			nerr++
+			for _, g := range gos {
+				if CanPrecede(reach, g.In, e.In) {
+					bad = "goroutine spawned at " + p.InstrPos(g.In) + " before the error return at " + p.InstrPos(e.In)
+				}
+			}
+			for _, cl := range closes {
+				if CanPrecede(reach, cl.In, e.In) {
+					bad = "channel closed at " + p.InstrPos(cl.In) + " before the error return at " + p.InstrPos(e.In)
+				}
+			}
+		}
+		q.Req(R, f.Name, bad == "" && nerr > 0, f.Pos(), fmt.Sprintf("%d error returns, none after a spawn or close", nerr), "failed Listen is not retryable: "+bad)
+	}
 }
